@@ -93,6 +93,15 @@ class Stats:
             self.nontrivial_order_fps.add(ov)
 
 
+def match_unknown(out, sig):
+    """True if this signature is neither a known finding nor already recorded
+    (only then is the cost of minimising worth paying)."""
+    from common import match_known
+    if match_known(out.prop, sig, out.known) is not None:
+        return False
+    return all(s != sig for s, _ in out.violations)
+
+
 def gen_req(job, cfg, inventory=False, text=False):
     return {"op": "gen", "job": job, "fix": cfg, "want_inventory": inventory, "want_text": text}
 
@@ -109,6 +118,81 @@ def inv_diff(a, b):
         if sorted(da.get(k, [])) != sorted(db.get(k, [])):
             out.append({"item": k, "a": da.get(k), "b": db.get(k)})
     return out
+
+
+def fingerprint_of(resp):
+    """Everything of a response that must be a pure function of the request."""
+    fix = resp.get("fix") or {}
+    return json.dumps([resp.get("kind"), resp.get("fp"), resp.get("err"),
+                       [(r["analysis"], r["order_fp"], r["facts_fp"], r["pops"], r["stutters"], r["dups"],
+                         r["reorders"], r["dedups"]) for r in fix.get("runs", [])],
+                       fix.get("events"), fix.get("points")], sort_keys=True)
+
+
+def selfcheck(seed, n, out=None):
+    """Determinism: the same requests, once on one worker and once on many, must
+    give identical schedule fingerprints and observations. A difference is a
+    harness error, never a violation."""
+    scratch = make_scratch("c07-self")
+    try:
+        reqs = []
+        for i in range(n):
+            prng = Rng.for_case(seed, "c07-self", i)
+            prog = gen_decls.gen_program(prng, max_entities=8)
+            ords, _ = gen_decls.orders(prog, prng, 2)
+            for k, o in enumerate(ords):
+                job = write_header_job(scratch, f"s{i}.o{k}", gen_decls.header_name(prog), gen_decls.render(prog, o),
+                                       prog.flags, {"callbacks": True} if prog.callbacks else None)
+                reqs.append(gen_req(job, fix_cfg(prng.next())))
+        a = run_requests(reqs, workers=1, timeout=300)
+        b = run_requests(reqs, workers=min(16, len(reqs)), timeout=300)
+        bad = [i for i, (x, y) in enumerate(zip(a, b)) if fingerprint_of(x) != fingerprint_of(y)]
+        if bad and out is not None:
+            out.harness_errors.append(f"determinism self-check: {len(bad)} of {len(reqs)} requests differ between "
+                                      f"1 and 16 workers (first: request {bad[0]})")
+        return len(reqs), len(bad)
+    finally:
+        remove_scratch(scratch)
+
+
+def minimise_events(job, events, want_class, baseline_fp, scratch):
+    """Delta-debug the forced perturbation events of a failing run: drop events
+    while a run forced to the remaining ones still shows the same violation
+    class. Returns the reduced event list (always re-checked by replay)."""
+    from common import materialise
+    j = materialise(job, scratch)
+
+    def fails(ev):
+        r = run_requests([gen_req(j, fix_cfg(0, forced=ev))], workers=1, timeout=300)[0]
+        if (r.get("fix") or {}).get("forced_mismatch"):
+            return False
+        probs = solver_problems(r)
+        if baseline_fp and r.get("kind") == "ok" and r.get("fp") != baseline_fp:
+            probs.append({"class": "bindings-differ-under-perturbation"})
+        return any(p["class"] == want_class for p in probs)
+
+    if not events or not fails(events):
+        return events
+    if fails([]):
+        return []
+    cur = list(events)
+    chunk = max(1, len(cur) // 2)
+    budget = 60
+    while chunk >= 1 and budget > 0:
+        i = 0
+        shrunk = False
+        while i < len(cur) and budget > 0:
+            cand = cur[:i] + cur[i + chunk:]
+            budget -= 1
+            if fails(cand):
+                cur = cand
+                shrunk = True
+            else:
+                i += chunk
+        if chunk == 1 and not shrunk:
+            break
+        chunk = max(1, chunk // 2) if chunk > 1 else (1 if shrunk else 0)
+    return cur
 
 
 def diff_kind(d):
@@ -129,6 +213,9 @@ def diff_kind(d):
 def run(tier, seed, only=None):
     out = Outcome("C07", tier, seed, "exploration")
     st = Stats()
+    minimised = [0]
+    n_self, bad_self = selfcheck(seed, 6 if tier == "quick" else 60, out)
+    log(f"[C07] determinism self-check: {n_self} requests on 1 vs 16 workers, {bad_self} differ")
     quick = tier == "quick"
     samples = []
 
@@ -205,6 +292,13 @@ def run(tier, seed, only=None):
         for p in probs:
             sig = dict(p, workload=f"corpus:{j['id']}", engine="S-b")
             events = (r.get("fix") or {}).get("events", [])
+            if minimised[0] < 4 and match_unknown(out, sig):
+                minimised[0] += 1
+                ms = make_scratch("c07-min")
+                try:
+                    events = minimise_events(j, events, p["class"], b["fp"], ms)
+                finally:
+                    remove_scratch(ms)
             out.violation(sig, {"engine": "c07", "kind": "corpus-sb", "job": j, "fix": fix_cfg(s),
                                 "forced_events": events, "baseline_fp": b["fp"], "observed": p})
     if res:
@@ -255,8 +349,16 @@ def run(tier, seed, only=None):
             for p in solver_problems(r):
                 sig = dict(p, engine="O-ref/generated")
                 sig.pop("item", None)
+                events = (r.get("fix") or {}).get("events", [])
+                if minimised[0] < 4 and match_unknown(out, sig):
+                    minimised[0] += 1
+                    ms = make_scratch("c07-min")
+                    try:
+                        events = minimise_events(job, events, p["class"], None, ms)
+                    finally:
+                        remove_scratch(ms)
                 out.violation(sig, {"engine": "c07", "kind": "graph-ref", "job": job, "fix": cfg,
-                                    "forced_events": (r.get("fix") or {}).get("events", []), "observed": p})
+                                    "forced_events": events, "observed": p})
         if len(ok) < 2:
             continue
         programs_compared += 1
@@ -304,6 +406,7 @@ def run(tier, seed, only=None):
         "scheduler_steps_simulated": st.pops + st.ref_evals,
         "max_changes_per_node_over_lattice_height": round(st.max_changes_ratio, 3),
         "regression_replays": regress_n,
+        "determinism_selfcheck": {"requests_run_twice": n_self, "differing": bad_self},
         "corpus_headers": len(jobs),
         "corpus_headers_usable": len(usable),
         "corpus_headers_skipped": skipped,
